@@ -1,7 +1,9 @@
 package main
 
 import (
+	"encoding/json"
 	"fmt"
+	"os/exec"
 	"go/ast"
 	"go/parser"
 	"go/types"
@@ -290,4 +292,65 @@ func (eng *Engine) structuralObligations(prop string) []*Obligation {
 		out = append(out, &Obligation{Name: "structure." + ck.Name, Kind: "structure", Func: "call graph", Pos: "spec/structure.json", Prefix: sc.mark(), Goal: goal, PC: "true", Script: sc, Expect: "unsat", Props: ck.Props, Desc: desc})
 	}
 	return out
+}
+
+// ---------- bounded stand-ins ----------
+
+type boundedResult struct {
+	Name   string `json:"name"`
+	Detail string `json:"detail"`
+	OK     bool   `json:"ok"`
+}
+
+// runBounded runs /verif/bounded/<prop>_*_test.go as in-package tests of /repo through an
+// overlay (nothing is written into the repository). These are BOUNDED checks for
+// functions outside the verifier's reach; they are reported separately and never
+// counted as discharged obligations.
+func (eng *Engine) runBounded(prop string) ([]boundedResult, string) {
+	files, _ := filepath.Glob(filepath.Join(eng.verifDir, "bounded", prop+"_*_test.go"))
+	if len(files) == 0 {
+		return nil, ""
+	}
+	tmp, err := os.MkdirTemp("/var/tmp", "govc-bounded-")
+	if err != nil {
+		return []boundedResult{{Name: "bounded", Detail: err.Error()}}, ""
+	}
+	defer os.RemoveAll(tmp)
+	repl := map[string]string{}
+	for _, f := range files {
+		repl[filepath.Join(eng.repo, "zz_verif_"+filepath.Base(f))] = f
+	}
+	ov, _ := json.Marshal(map[string]interface{}{"Replace": repl})
+	ovPath := filepath.Join(tmp, "ov.json")
+	os.WriteFile(ovPath, ov, 0644)
+	cmd := exec.Command("go", "test", "-overlay", ovPath, "-vet=off", "-count=1", "-timeout", "300s", "-run", "^TestVerifBounded", "-v", ".")
+	cmd.Dir = eng.repo
+	cmd.Env = append(os.Environ(), "GOFLAGS=-mod=mod", "GOPROXY=off", "GOSUMDB=off", "GOTOOLCHAIN=local")
+	out, _ := cmd.CombinedOutput()
+	var res []boundedResult
+	sawAny := false
+	for _, l := range strings.Split(string(out), "\n") {
+		switch {
+		case strings.HasPrefix(l, "BOUNDED-OK "):
+			f := strings.SplitN(strings.TrimPrefix(l, "BOUNDED-OK "), " ", 2)
+			d := ""
+			if len(f) > 1 {
+				d = f[1]
+			}
+			res = append(res, boundedResult{Name: f[0], Detail: d, OK: true})
+			sawAny = true
+		case strings.HasPrefix(l, "BOUNDED-FAIL "):
+			f := strings.SplitN(strings.TrimPrefix(l, "BOUNDED-FAIL "), " ", 2)
+			d := ""
+			if len(f) > 1 {
+				d = f[1]
+			}
+			res = append(res, boundedResult{Name: f[0], Detail: d, OK: false})
+			sawAny = true
+		}
+	}
+	if !sawAny {
+		res = append(res, boundedResult{Name: prop + ".bounded-harness", Detail: "no result lines; output: " + firstLines(string(out), 12), OK: false})
+	}
+	return res, string(out)
 }
